@@ -98,6 +98,17 @@ pub fn run() {
                     None => "r=none".to_string(),
                 }
             }
+            "sp" => {
+                // skip_space / skip_space_peek / eat with the cached bitmap after every operation
+                let data = if p[2] == "-" { Vec::new() } else { unhex(&p[2]) };
+                let ops = p.get(3).map(|s| s.as_bytes().to_vec()).unwrap_or_default();
+                let tr = sonic_rs::verif::skip_space_trace(&data, &ops);
+                let parts: Vec<String> = tr
+                    .iter()
+                    .map(|(b, i, bits, st)| format!("{}:{}:{:x}:{}", b.map(|x| x.to_string()).unwrap_or_else(|| "-".into()), i, bits, st))
+                    .collect();
+                format!("t={}", parts.join(";"))
+            }
             "d2i" => {
                 let a = unhex(&p[2]);
                 let need: usize = p[3].parse().unwrap();
@@ -236,6 +247,25 @@ pub fn gen(seed: u64, thorough: bool) {
                 t.extend_from_slice(b"\\\"q\" ");
                 out.line(&format!("c17 ss {}", hex(&t)));
             }
+        }
+    }
+    // skip_space with its cached bitmap: texts of blanks with a few other bytes (runs crossing the 64-byte windows, windows
+    // without any blank, the end of the input inside / at / behind a window), driven by operation sequences
+    {
+        let opsets: [&str; 8] = ["sssssssssss", "spspspspsps", "s1s2s3s9s9s", "ps9ps9ps9ps", "s9999999s9s", "pppp1pppp1p", "s1p1s1p1s1p", "9s9s9s9s9s9"];
+        let nsp = if thorough { 4000 } else { 500 };
+        for k in 0..nsp {
+            let len = match k % 6 { 0 => (r.next() % 8) as usize, 1 => 60 + (r.next() % 10) as usize, 2 => 120 + (r.next() % 20) as usize, _ => (r.next() % 260) as usize };
+            let density = [1u64, 3, 8, 30, 90][(k / 6) % 5];
+            let data: Vec<u8> = (0..len)
+                .map(|_| if r.next() % density == 0 { *r.pick(&[b'x', b'"', b'1', b'{', 0u8, 0x0b, 0xa0]) } else { *r.pick(&[b' ', b' ', b' ', b'\n', b'\t', b'\r']) })
+                .collect();
+            let ops = if k % 3 == 0 {
+                (0..(4 + r.next() % 14)).map(|_| *r.pick(&[b's', b's', b'p', b'1', b'2', b'7', b'9'])).map(|c| c as char).collect::<String>()
+            } else {
+                opsets[(r.next() % 8) as usize].to_string()
+            };
+            out.line(&format!("c17 sp {} {}", if data.is_empty() { "-".to_string() } else { hex(&data) }, ops));
         }
     }
     let salpha: [u8; 8] = [b'"', b'\\', b'\\', b'a', b'a', b'a', b'u', b'{'];
